@@ -318,8 +318,13 @@ func (a cacheAsMap) ChainKeys(int) [][]string        { return nil }
 func (a cacheAsMap) RootBuckets() int                { return a.c.Stats().RootBuckets }
 
 // collide: 0 = seeded well-spread hash, 1 = every key in one bucket chain, 4 = keys spread over 4 buckets only
-func bulkSpec(name string, kind int, hint int, seed uint64, n int, depth int, collide int) *SeqSpec {
+func bulkSpec(name string, kind int, hint int, seed uint64, n int, depth int, collide int, extra ...func(*xsync.MapConfig)) *SeqSpec {
 	cuts := []int{1, 72, 73, 74, 96, 97, 121, 145, 289, 577, n / 2, n}
+	shrinks := []int{0, 1, 2, 3, 5, 37, 73, 96, 145, n / 2}
+	if n >= 20000 {
+		// large tables (more counter stripes, 16384+ buckets): few, big steps
+		cuts, shrinks = []int{n}, []int{5, n / 2}
+	}
 	var events []bulkEv
 	events = append(events, bulkEv{Kind: "probe"})
 	for _, c := range cuts {
@@ -327,7 +332,7 @@ func bulkSpec(name string, kind int, hint int, seed uint64, n int, depth int, co
 			events = append(events, bulkEv{Kind: "growTo", N: c})
 		}
 	}
-	for _, c := range []int{0, 1, 2, 3, 5, 37, 73, 96, 145, n / 2} {
+	for _, c := range shrinks {
 		if c <= n {
 			events = append(events, bulkEv{Kind: "shrinkTo", N: c})
 		}
@@ -360,6 +365,7 @@ func bulkSpec(name string, kind int, hint int, seed uint64, n int, depth int, co
 		if hint != 0 {
 			opts = append(opts, xsync.WithPresize(hint))
 		}
+		opts = append(opts, extra...)
 		switch kind {
 		case 0:
 			m = mapAdapter{m: xsync.NewMap(opts...)}
@@ -430,6 +436,16 @@ func genC11(tier string) []*Scenario {
 				name := fmt.Sprintf("C11/resize-histories/%s/hint=%d/seed=%d", bulkKinds[kind], hint, seed)
 				out = append(out, &Scenario{Name: name, Prop: "C11", Seq: bulkSpec(name, kind, hint, seed, n, depth, 0), ExpectOutcomes: 2})
 			}
+		}
+		if kind < 2 {
+			// construction options: a grow-only map (never shrinks, Clear still empties it), also presized
+			for _, hint := range []int{0, 1000} {
+				name := fmt.Sprintf("C11/resize-histories/%s/grow-only/hint=%d", bulkKinds[kind], hint)
+				out = append(out, &Scenario{Name: name, Prop: "C11", Seq: bulkSpec(name, kind, hint, 1, n, depth, 0, xsync.WithGrowOnly()), ExpectOutcomes: 2})
+			}
+			// a table large enough to have more counter stripes than the minimum and 16384+ root buckets
+			name := fmt.Sprintf("C11/resize-histories/%s/large-table", bulkKinds[kind])
+			out = append(out, &Scenario{Name: name, Prop: "C11", Seq: bulkSpec(name, kind, 0, 1, 40000, 2+lvl, 0), ExpectOutcomes: 2})
 		}
 		// the real hash functions (runtime memhash / typehash, random seeds): the oracle is layout independent
 		name0 := fmt.Sprintf("C11/resize-histories/%s/real-hash-functions", bulkKinds[kind])
